@@ -1,7 +1,7 @@
 """C08: the entry codec (SideState/SyncEntry serialize + deserialize in cloudsync/sync/state.py) preserves every
 sync-relevant field for every value shape; rows written by older releases still load."""
 from pyvc.dsl import *   # noqa
-from cloudsync.sync.state import SyncEntry, TRASHED, MISSING, EXISTS, UNKNOWN, CORRUPT
+from cloudsync.sync.state import SyncEntry, SyncState, TRASHED, MISSING, EXISTS, UNKNOWN, CORRUPT
 from cloudsync.types import IgnoreReason
 
 
@@ -103,3 +103,36 @@ def storage_commit_writes_every_dirty_entry(w: World):
     else:
         check(not is_dirty(state, e), "after a commit nothing is dirty")
         check(wrote, "every entry that was dirty was handed to the storage writer")
+
+
+@lemma(props=["C08", "C06", "C11"], configs="none", raises=["AssertionError"],
+       inline=["cloudsync.sync.state:SyncState.lookup_oid"])
+def load_rebuilds_indexes_and_pending_set(w: World, sid: int):
+    """L8.4 / L6.8: starting a state over storage that holds one row: the entry is rebuilt with the row's fields and its
+    storage id, is found under its id and under its path on each side that has an id, and is in the pending set exactly
+    when it carries a change flag on a side that has an id -- the rule the running engine maintains (so that a restart
+    sees the same pending set); nothing is written to storage while loading"""
+    e = w.entry("e")
+    for s in (0, 1):
+        assume(e[s].changed is not False)
+        assume(e[s].oid is None or len(e[s].oid) > 0)
+    row = e.serialize()
+    store = w.storage({sid: row})
+    st2 = SyncState(w.providers, store, "tag", False, None, w.nmgr)
+    names = [n for n in effect_names() if n.startswith("storage:")]
+    check(names == ["storage:read_all"], "loading reads the rows once and writes nothing")
+    pending = False
+    for s in (0, 1):
+        if e[s].oid is not None:
+            got = st2.lookup_oid(s, e[s].oid)
+            check(got is not None and got.storage_id == sid, "the entry is found under its id")
+            check(got[s].oid == e[s].oid and got[s].path == e[s].path and got[s].hash == e[s].hash and got[s].changed == e[s].changed,
+                  "with the row's fields")
+            if truthy(e[s].changed):
+                pending = True
+    for s in (0, 1):
+        if e[s].oid is not None:
+            got = st2.lookup_oid(s, e[s].oid)
+            check(in_changeset(st2, got) == pending, "pending exactly when a side with an id carries a change flag")
+        else:
+            check(st2.lookup_oid(s, None) is None, "a side without an id is not indexed")
